@@ -233,7 +233,7 @@ func (c *Ctx) ruleA4(rule string, fn *ssa.Function, isWorker func(*ssa.Call) boo
 			// error list writes under a lock
 			if E != nil {
 				eachInstr(lit, func(i2 ssa.Instruction) {
-					if st, ok := i2.(*ssa.Store); ok && x.ResolveAddr(st.Addr) == ssa.Value(E) {
+					if st, ok := i2.(*ssa.Store); ok && c.isErrFamAddr(x, E, st.Addr) {
 						held := x.heldAt(i2)
 						locked := false
 						for n := range held {
@@ -437,7 +437,7 @@ func (c *Ctx) ruleA4(rule string, fn *ssa.Function, isWorker func(*ssa.Call) boo
 				if call, ok := in.(*ssa.Call); ok && isWorker(call) {
 					return true
 				}
-				if u, ok := in.(*ssa.UnOp); ok && u.Op == token.MUL && E != nil && x.ResolveAddr(u.X) == ssa.Value(E) {
+				if u, ok := in.(*ssa.UnOp); ok && u.Op == token.MUL && E != nil && c.isErrFamAddr(x, E, u.X) {
 					return true
 				}
 				for _, h := range heads {
@@ -484,4 +484,10 @@ func (c *Ctx) ruleA4(rule string, fn *ssa.Function, isWorker func(*ssa.Call) boo
 // loopWithin: loop l does not contain instruction in (used to tell the fan-out loop from enclosing loops).
 func (x *FnIndex) loopWithin(l *Loop, in ssa.Instruction) bool {
 	return !l.Blocks[in.Block()]
+}
+
+// isErrFamAddr: addr is the list of messages e or one whose content is handed on into it.
+func (c *Ctx) isErrFamAddr(x *FnIndex, e *ssa.Alloc, addr ssa.Value) bool {
+	al, ok := x.ResolveAddr(addr).(*ssa.Alloc)
+	return ok && c.inErrFamily(e, al)
 }
